@@ -24,22 +24,23 @@ Proof.
 Qed.
 
 (* ---------- classification of operations (boolean, so that concrete lists are checked by computation) ---------- *)
-Definition dir_opb (o : op) : bool := match o with OW _ _ | OA _ | OR _ | ODMV _ => true | _ => false end.
+Definition dir_opb (o : op) : bool := match o with OW _ _ | OA _ | OR _ | ODMV _ | OJMV _ _ => true | _ => false end.
 Definition dop_okb (c : cfg) (o : op) : bool :=
   match o with
   | OW r f => (if role_eqb r Marker then fstate_eqb f (Full Plain) else true)
               && (if role_eqb r SamplesCsv then c_csv c else true)
-  | OA r => negb (role_eqb r Marker) && negb (role_eqb r SamplesCsv)
+  | OA r | OJMV r _ => negb (role_eqb r Marker) && negb (role_eqb r SamplesCsv)
   | _ => true
   end.
 Definition dill_okb (cd : code) (o : op) : bool :=
   match o with
   | OW r _ | OA r => if role_eqb r Dill then negb (fx_dill cd) else true
   | ODMV f => match f with Part _ => false | _ => true end
+  | OJMV r _ => negb (role_eqb r Dill)
   | _ => true
   end.
 Definition no_markerb (o : op) : bool :=
-  match o with OW r _ | OA r => negb (role_eqb r Marker) | _ => true end.
+  match o with OW r _ | OA r | OJMV r _ => negb (role_eqb r Marker) | _ => true end.
 Definition nr_opb (o : op) : bool :=
   match o with
   | OW r _ | OA r | OR r => negb (res_role r)
@@ -66,22 +67,25 @@ Lemma dop_ok_wf c o s : dop_okb c o = true -> dir_wf c (fd s) ->
   dir_wf c (fd (apply o s)) /\ dir_wf c (fd (apply_empty o s)) /\ dir_wf c (fd (cut o (apply o s))).
 Proof.
   unfold dir_wf, marker_wf. intros H [M C].
-  destruct o as [r f|r|r| | | | |f]; simpl in H; try (simpl; repeat split; assumption).
+  destruct o as [r f|r|r| | | | |r f|f]; simpl in H; try (simpl; repeat split; assumption).
   - apply andb_true_iff in H. destruct H as [H1 H2].
     role_cases r; try (apply fstate_eqb_eq in H1; subst f); repeat split; auto; intros; try congruence.
   - apply andb_true_iff in H. destruct H as [H1 H2].
     role_cases r; try discriminate; destruct (fd s _) eqn:E in |- *; simpl; repeat split; auto; intros; try congruence.
   - role_cases r; repeat split; auto.
+  - apply andb_true_iff in H. destruct H as [H1 H2].
+    role_cases r; try discriminate; repeat split; auto.
 Qed.
 
 Lemma dill_ok_inv cd o s : dill_okb cd o = true -> dill_inv cd (fd s) ->
   dill_inv cd (fd (apply o s)) /\ dill_inv cd (fd (apply_empty o s)) /\ dill_inv cd (fd (cut o (apply o s))).
 Proof.
   unfold dill_inv. intros H D.
-  destruct o as [r f|r|r| | | | |f]; simpl in H; try (simpl; repeat split; assumption).
+  destruct o as [r f|r|r| | | | |r f|f]; simpl in H; try (simpl; repeat split; assumption).
   - role_cases r; repeat split; auto; intro F; rewrite F in H; discriminate.
   - role_cases r; try (destruct (fd s _) eqn:E in |- *; simpl); repeat split; auto; intro F; rewrite F in H; discriminate.
   - role_cases r; repeat split; auto.
+  - role_cases r; try discriminate; repeat split; auto.
   - destruct f; try discriminate; simpl; unfold upd; simpl; repeat split; auto.
 Qed.
 
@@ -89,10 +93,11 @@ Lemma no_marker_keeps o s : no_markerb o = true -> fd s Marker = Absent ->
   fd (apply o s) Marker = Absent /\ fd (apply_empty o s) Marker = Absent
   /\ fd (cut o (apply o s)) Marker = Absent.
 Proof.
-  intros H M. destruct o as [r f|r|r| | | | |f]; simpl in H; try (simpl; repeat split; assumption).
+  intros H M. destruct o as [r f|r|r| | | | |r f|f]; simpl in H; try (simpl; repeat split; assumption).
   - role_cases r; try discriminate; repeat split; assumption.
   - simpl. destruct (fd s r) eqn:E; role_cases r; try discriminate; repeat split; assumption.
   - role_cases r; repeat split; auto.
+  - role_cases r; try discriminate; repeat split; assumption.
 Qed.
 
 Lemma forallb_Forall {A} (f : A -> bool) l : forallb f l = true -> Forall (fun x => f x = true) l.
@@ -249,14 +254,25 @@ Qed.
 Lemma forallb_repeat_ops (P : op -> bool) n l : forallb P l = true -> forallb P (repeat_ops n l) = true.
 Proof. intro H. induction n as [|n IH]; [reflexivity|]. simpl. rewrite forallb_app, H, IH. reflexivity. Qed.
 
-Lemma good_save_all cd c : forallb (fresh_good cd c) save_all_ops = true.
-Proof. reflexivity. Qed.
+Lemma good_json_write cd c r f :
+  role_eqb r Marker = false -> role_eqb r SamplesCsv = false -> role_eqb r Dill = false ->
+  (r = SearchJson \/ r = ModelJson \/ r = Summary \/ r = SamplesInfo) ->
+  forallb (fresh_good cd c) (json_write cd r f) = true.
+Proof.
+  intros _ _ _ H. unfold json_write, fresh_good. destruct (fx_json cd); destruct H as [->|[->|[->| ->]]]; reflexivity.
+Qed.
 
-Lemma good_update cd c g : forallb (fresh_good cd c) (update_ops c g) = true.
-Proof. unfold update_ops, fresh_good. destruct (c_csv c) eqn:E; simpl; rewrite ?E; reflexivity. Qed.
+Lemma good_save_all cd c : forallb (fresh_good cd c) (save_all_ops cd) = true.
+Proof. unfold save_all_ops, json_write. destruct (fx_json cd); reflexivity. Qed.
 
-Lemma good_update_failing cd c g : forallb (fresh_good cd c) (update_ops_failing c g) = true.
-Proof. unfold update_ops_failing, fresh_good. destruct (c_csv c) eqn:E; simpl; rewrite ?E; reflexivity. Qed.
+Lemma good_update cd c g : forallb (fresh_good cd c) (update_ops cd c g) = true.
+Proof. unfold update_ops, json_write, fresh_good. destruct (fx_json cd); destruct (c_csv c) eqn:E; simpl; rewrite ?E; reflexivity. Qed.
+
+Lemma good_final cd c g : forallb (fresh_good cd c) (final_ops cd c g) = true.
+Proof. unfold final_ops, update_ops, json_write, fresh_good. destruct (fx_json cd); destruct (c_csv c) eqn:E; simpl; rewrite ?E; reflexivity. Qed.
+
+Lemma good_update_failing cd c g : forallb (fresh_good cd c) (update_ops_failing cd c g) = true.
+Proof. unfold update_ops_failing, json_write, fresh_good. destruct (fx_json cd); destruct (c_csv c) eqn:E; simpl; rewrite ?E; reflexivity. Qed.
 
 Lemma good_dill_write cd c x : forallb (fresh_good cd c) (dill_write cd (Full x)) = true.
 Proof. unfold dill_write, fresh_good. destruct (fx_dill cd) eqn:F; simpl; rewrite ?F; reflexivity. Qed.
@@ -265,13 +281,13 @@ Lemma good_timer cd c s : forallb (fresh_good cd c) (fst (timer_ops cd s)) = tru
 Proof. unfold timer_ops. destruct (fd s StartTime) as [|[|]|x]; try reflexivity. destruct (fx_timer cd); reflexivity. Qed.
 
 Lemma good_loop cd c tag n :
-  forallb (fresh_good cd c) (repeat_ops n (dill_write cd (Full (Gen tag)) ++ update_ops c tag)) = true.
+  forallb (fresh_good cd c) (repeat_ops n (dill_write cd (Full (Gen tag)) ++ update_ops cd c tag)) = true.
 Proof. apply forallb_repeat_ops. rewrite forallb_app, good_dill_write, good_update. reflexivity. Qed.
 
 Lemma good_search cd c tag s : forallb (fresh_good cd c) (fst (fst (fst (search_ops cd c tag s)))) = true.
 Proof.
   unfold search_ops. destruct (c_search c); [apply good_dill_write|].
-  destruct (fd s Dill) as [|[|]|[|g|]]; try apply good_loop; try reflexivity.
+  destruct (fd s Dill) as [|[|]|[|g|]]; try (destruct (c_updates c) eqn:U; [reflexivity | rewrite <- U; apply good_loop]); try reflexivity.
   destruct (fx_resume cd); [|reflexivity]. destruct (c_updates c) as [|[|n]]; try reflexivity. apply good_loop.
 Qed.
 
@@ -286,7 +302,7 @@ Lemma search_no_internal cd c tag s f g sm :
   search_ops cd c tag s = (f, inr g, sm, false) -> f = dill_write cd (Full (Gen g)).
 Proof.
   unfold search_ops. destruct (c_search c); [intro H; inversion H; reflexivity|].
-  destruct (fd s Dill) as [|[|]|[|g'|]]; try (intro H; inversion H; fail).
+  destruct (fd s Dill) as [|[|]|[|g'|]]; try (destruct (c_updates c); intro H; inversion H; fail).
   destruct (fx_resume cd); [|intro H; inversion H]. destruct (c_updates c) as [|[|n]]; intro H; inversion H.
 Qed.
 
@@ -298,16 +314,16 @@ Proof.
   eapply search_no_internal. exact E.
 Qed.
 
-Lemma update_marker_complete c g s :
+Lemma update_marker_complete cd c g s :
   (c_csv c = false -> fd s SamplesCsv = Absent) ->
-  complete c g (fd (exec (update_ops c g ++ [OW Marker (Full Plain)]) s)).
+  complete c g (fd (exec (final_ops cd c g ++ [OW Marker (Full Plain)]) s)).
 Proof.
-  intro H. unfold update_ops, complete. destruct (c_csv c); simpl; unfold upd; simpl; repeat split; auto.
+  intro H. unfold final_ops, update_ops, json_write, complete. destruct (fx_json cd); destruct (c_csv c); simpl; unfold upd; simpl; repeat split; auto.
 Qed.
 
 Lemma dill_after_write cd c g x s :
-  fd (exec (dill_write cd (Full x) ++ update_ops c g ++ [OW Marker (Full Plain)]) s) Dill = Full x.
-Proof. unfold dill_write, update_ops. destruct (fx_dill cd), (c_csv c); reflexivity. Qed.
+  fd (exec (dill_write cd (Full x) ++ final_ops cd c g ++ [OW Marker (Full Plain)]) s) Dill = Full x.
+Proof. unfold dill_write, final_ops, update_ops, json_write. destruct (fx_dill cd), (fx_json cd), (c_csv c); reflexivity. Qed.
 
 (* ---------- the fresh branch as a whole ---------- *)
 Lemma freshJ_not_complete cd c s : freshJ cd c s -> is_complete s = false.
@@ -347,9 +363,9 @@ Proof. rewrite <- !app_assoc. simpl. rewrite <- !app_assoc. reflexivity. Qed.
 (* what a fresh run consists of when nothing on disk is unreadable *)
 Lemma fresh_success cd c tag h s t f g sm internal :
   freshJ cd c s ->
-  let s2 := exec save_all_ops s in
+  let s2 := exec (save_all_ops cd) s in
   timer_ops cd s2 = (t, None) -> fit_ops cd c tag s2 = (f, inr g, sm, internal) -> drawer_time_bad cd c s2 = false ->
-  let A := save_all_ops ++ (OA Log :: t ++ f ++ update_ops c g) in
+  let A := (save_all_ops cd) ++ (OA Log :: t ++ f ++ final_ops cd c g) in
   let s3 := apply (OW Marker (Full Plain)) (exec A s) in
   let res := mkres g (Some g) internal in
   forallb (fresh_good cd c) A = true
@@ -362,14 +378,14 @@ Proof.
   intros HJ s2 Ht Hf Hb A s3 res.
   assert (HgA : forallb (fresh_good cd c) A = true).
   { unfold A. rewrite forallb_app, good_save_all. simpl.
-    rewrite !forallb_app, good_update.
+    rewrite !forallb_app, good_final.
     pose proof (good_timer cd c s2) as G1. rewrite Ht in G1. simpl in G1. rewrite G1.
     pose proof (good_fit cd c tag s2) as G2. rewrite Hf in G2. simpl in G2. rewrite G2. reflexivity. }
   split; [exact HgA|].
   assert (Hs3 : s3 = exec (A ++ [OW Marker (Full Plain)]) s) by (unfold s3; rewrite exec_app; reflexivity).
   split; [|split].
   - rewrite Hs3. unfold A. rewrite fresh_list_assoc1, exec_app. apply update_marker_complete.
-    assert (G : forallb (fresh_good cd c) (save_all_ops ++ (OA Log :: t ++ f)) = true).
+    assert (G : forallb (fresh_good cd c) ((save_all_ops cd) ++ (OA Log :: t ++ f)) = true).
     { rewrite forallb_app, good_save_all. cbn [forallb andb fresh_good dir_opb dop_okb dill_okb no_markerb role_eqb negb].
       rewrite forallb_app.
       pose proof (good_timer cd c s2) as G1. rewrite Ht in G1. simpl in G1. rewrite G1.
@@ -381,14 +397,14 @@ Proof.
     unfold pre_ops. rewrite (freshJ_not_complete cd c s (conj Hz HJ')). cbv zeta. fold s2.
     unfold main_ops.
     assert (HJ2 : freshJ cd c s2).
-    { apply (seg_fresh cd c save_all_ops s (conj Hz HJ') (good_save_all cd c)). }
+    { apply (seg_fresh cd c (save_all_ops cd) s (conj Hz HJ') (good_save_all cd c)). }
     rewrite (freshJ_not_complete cd c s2 HJ2).
     unfold fresh_ops. rewrite Ht, Hf, Hb.
     rewrite app_marker_assoc.
-    assert (E3 : exec ((OA Log :: t ++ f ++ update_ops c g) ++ [OW Marker (Full Plain)]) s2 = s3).
+    assert (E3 : exec ((OA Log :: t ++ f ++ final_ops cd c g) ++ [OW Marker (Full Plain)]) s2 = s3).
     { unfold s3, A, s2. rewrite !exec_app. reflexivity. }
     rewrite E3.
-    assert (EL : length save_all_ops + length ((OA Log :: t ++ f ++ update_ops c g) ++ [OW Marker (Full Plain)]) = length A + 1).
+    assert (EL : length (save_all_ops cd) + length ((OA Log :: t ++ f ++ final_ops cd c g) ++ [OW Marker (Full Plain)]) = length A + 1).
     { unfold A. rewrite !app_length. simpl. lia. }
     rewrite EL. fold res.
     destruct (post_ops cd c res (skipn (length A + 1) h) s3) as [q [e|]]; unfold A; rewrite <- !app_assoc; reflexivity.
@@ -400,24 +416,24 @@ Proof. intro H. simpl. rewrite H. reflexivity. Qed.
 (* every crash state of a run that starts without archive and without .completed *)
 Lemma fresh_inv cd c tag h s : freshJ cd c s -> forall k v, Inv cd c (crash_state (plan_ops cd c tag h s) k v s).
 Proof.
-  intro HJ. set (s2 := exec save_all_ops s).
-  assert (HJ2 : freshJ cd c s2) by (apply (seg_fresh cd c save_all_ops s HJ (good_save_all cd c))).
+  intro HJ. set (s2 := exec (save_all_ops cd) s).
+  assert (HJ2 : freshJ cd c s2) by (apply (seg_fresh cd c (save_all_ops cd) s HJ (good_save_all cd c))).
   destruct (timer_ops cd s2) as [t te] eqn:Ht.
   destruct (fit_ops cd c tag s2) as [[[f fo] sm] internal] eqn:Hf.
   pose proof (good_timer cd c s2) as G1. rewrite Ht in G1. simpl in G1.
   pose proof (good_fit cd c tag s2) as G2. rewrite Hf in G2. simpl in G2.
   assert (Hfail : forall m e sm', forallb (fresh_good cd c) m = true ->
-            plan cd c tag h s = (save_all_ops ++ m, inl e, sm') ->
+            plan cd c tag h s = ((save_all_ops cd) ++ m, inl e, sm') ->
             forall k v, Inv cd c (crash_state (plan_ops cd c tag h s) k v s)).
   { intros m e sm' Gm E. unfold plan_ops. rewrite E. cbn [fst].
     refine (proj1 (seg_fresh cd c _ s HJ _)). rewrite forallb_app, good_save_all, Gm. reflexivity. }
   assert (Hplan : plan cd c tag h s =
      let '(m, mo, sampled) := fresh_ops cd c tag s2 in
      match mo with
-     | inl e => (save_all_ops ++ m, inl e, sampled)
+     | inl e => ((save_all_ops cd) ++ m, inl e, sampled)
      | inr res =>
-        let '(q, qe) := post_ops cd c res (skipn (length save_all_ops + length m) h) (exec m s2) in
-        match qe with Some e => (save_all_ops ++ m ++ q, inl e, sampled) | None => (save_all_ops ++ m ++ q, inr res, sampled) end
+        let '(q, qe) := post_ops cd c res (skipn (length (save_all_ops cd) + length m) h) (exec m s2) in
+        match qe with Some e => ((save_all_ops cd) ++ m ++ q, inl e, sampled) | None => ((save_all_ops cd) ++ m ++ q, inr res, sampled) end
      end).
   { destruct HJ as [Hz HJ']. rewrite (plan_no_zip cd c tag h s Hz). unfold pre_ops.
     rewrite (freshJ_not_complete cd c s (conj Hz HJ')). cbv zeta. fold s2. unfold main_ops.
@@ -429,13 +445,13 @@ Proof.
   { apply (Hfail (OA Log :: t ++ f) e sm); [apply good_oalog; rewrite forallb_app, G1, G2; reflexivity|].
     rewrite Hplan. unfold fresh_ops. rewrite Ht, Hf. reflexivity. }
   destruct (drawer_time_bad cd c s2) eqn:Hb.
-  { apply (Hfail (OA Log :: t ++ f ++ update_ops_failing c g) ValueErr sm).
+  { apply (Hfail (OA Log :: t ++ f ++ update_ops_failing cd c g) ValueErr sm).
     - apply good_oalog. rewrite !forallb_app, G1, G2, good_update_failing. reflexivity.
     - rewrite Hplan. unfold fresh_ops. rewrite Ht, Hf, Hb. reflexivity. }
   (* success *)
   destruct (fresh_success cd c tag h s t f g sm internal HJ Ht Hf Hb) as [GA [Hc [Hd E]]].
   fold s2 in Ht, Hf, Hb.
-  set (A := save_all_ops ++ (OA Log :: t ++ f ++ update_ops c g)) in *.
+  set (A := (save_all_ops cd) ++ (OA Log :: t ++ f ++ final_ops cd c g)) in *.
   set (s3 := apply (OW Marker (Full Plain)) (exec A s)) in *.
   set (res := mkres g (Some g) internal) in *.
   destruct (seg_fresh cd c A s HJ GA) as [IA JA].
@@ -572,8 +588,11 @@ Definition recoverable (cd : code) (c : cfg) (s : fs) : Prop :=
         | _ => True
         end)).
 
-Lemma save_all_keeps s r : (r = StartTime \/ r = Time \/ r = Dill \/ r = Summary) -> fd (exec save_all_ops s) r = fd s r.
-Proof. intros [->|[->|[->| ->]]]; reflexivity. Qed.
+(* the searches are configured to do some work: BFGS/LBFGS with maxiter = 0 raises UnboundLocalError (modelled) *)
+Definition sane (c : cfg) : Prop := c_search c = LBFGS -> 1 <= c_updates c.
+
+Lemma save_all_keeps cd s r : (r = StartTime \/ r = Time \/ r = Dill \/ r = Summary) -> fd (exec (save_all_ops cd) s) r = fd s r.
+Proof. unfold save_all_ops, json_write. intros [->|[->|[->| ->]]]; destruct (fx_json cd); reflexivity. Qed.
 
 Lemma fresh_resume cd c tag h s :
   freshJ cd c s ->
@@ -591,9 +610,11 @@ Lemma fresh_resume cd c tag h s :
      | Full (Gen _) => c_search c = Drawer
      | _ => True
      end) ->
-  exists r, plan_out cd c tag h s = inr r /\ stored c (r_tag r) (run_full cd c tag h s).
+  sane c ->
+  exists r, plan_out cd c tag h s = inr r /\ stored c (r_tag r) (run_full cd c tag h s)
+            /\ r_samples r = Some (r_tag r).
 Proof.
-  intros HJ H1 H2 H3 H4. set (s2 := exec save_all_ops s).
+  intros HJ H1 H2 H3 H4 H5. set (s2 := exec (save_all_ops cd) s).
   assert (E4 : fd s2 Summary = fd s Summary) by (apply save_all_keeps; auto).
   assert (E1 : fd s2 StartTime = fd s StartTime) by (apply save_all_keeps; auto).
   assert (E2 : fd s2 Time = fd s Time) by (apply save_all_keeps; auto).
@@ -605,8 +626,9 @@ Proof.
   assert (Hf : exists f g sm internal, fit_ops cd c tag s2 = (f, inr g, sm, internal)).
   { assert (Hs : exists f g sm internal, search_ops cd c tag s2 = (f, inr g, sm, internal)).
     { unfold search_ops. rewrite E3. destruct (c_search c) eqn:S; [do 4 eexists; reflexivity|].
-      specialize (H3 eq_refl). destruct (fd s Dill) as [|p|[|g|]]; try contradiction; try (do 4 eexists; reflexivity).
-      rewrite H3. destruct (c_updates c) as [|[|n]]; do 4 eexists; reflexivity. }
+      specialize (H3 eq_refl). specialize (H5 S). destruct (c_updates c) as [|n0] eqn:U; [lia|].
+      destruct (fd s Dill) as [|p|[|g|]]; try contradiction; try (do 4 eexists; reflexivity).
+      rewrite H3. destruct n0; do 4 eexists; reflexivity. }
     destruct Hs as [f [g [sm [internal Hs]]]].
     assert (Hk : exists ev, chk_ops cd c s2 = (None, ev)).
     { unfold chk_ops. rewrite E4. destruct (c_chk c) eqn:K; [|eexists; reflexivity].
@@ -621,7 +643,7 @@ Proof.
     destruct (fd s Time) as [|[|]|x] eqn:E; try reflexivity.
     destruct (fx_timer cd) eqn:F; [reflexivity|]. exfalso. apply (H2 eq_refl eq_refl). reflexivity. }
   destruct (fresh_success cd c tag h s t f g sm internal HJ Ht Hf Hb) as [GA [Hc [Hd E]]].
-  set (A := save_all_ops ++ (OA Log :: t ++ f ++ update_ops c g)) in *.
+  set (A := (save_all_ops cd) ++ (OA Log :: t ++ f ++ final_ops cd c g)) in *.
   set (s3 := apply (OW Marker (Full Plain)) (exec A s)) in *.
   set (res := mkres g (Some g) internal) in *.
   destruct (seg_fresh cd c A s HJ GA) as [_ JA].
